@@ -360,6 +360,9 @@ func runC17(c *Ctx) {
 	}
 	c.verdict(pkg+":one-bucket", token.NoPos, len(buckets) == 1 && len(buckets[sortedKeys(buckets)[0]]) == 3, "store, remove and restore use the same bucket", fmt.Sprintf("bucket use differs: %v", buckets))
 
+	clauseClientPropagatesRPCErrors(c, "C17.h")
+	clauseFreshDecodeTarget(c, "C17.i")
+
 	// ---------- C17.g ----------
 	c.clause("C17.g", "T1", "unmounting an unknown mountpoint succeeds only when the mount table shows nothing mounted there", 1)
 	if f := c.mustFn(pkg, "(*Server).Unmount"); f != nil {
